@@ -1,5 +1,6 @@
 import KDVerif.Driver.J
 import KDVerif.Model.Strength
+import KDVerif.Model.C15Spec
 open Lean KDVerif.J
 
 namespace KDVerif.Strength.Driver
@@ -85,6 +86,19 @@ def handle (op : String) (j : Json) : Except String Json :=
       | "samples" => pure (RunLen.samples (← nat j "v"))
       | _ => throw "kind"
     pure (ofNat (nBatches B r))
+  | "st.loader" => do
+    -- the stateful scheduled transform (`Model/C15Spec`): W worker copies, batches dealt round-robin, B calls per batch;
+    -- the schedule is handed in as the table of its values at 0..N-1
+    let W ← nat j "W"
+    let B ← nat j "B"
+    let N ← nat j "N"
+    let t ← parseT (← val j "t")
+    let tbl ← ratList (← val j "schedule")
+    let sch : Nat → Nat → Rat := fun b _ => tbl.getD b 0
+    let outs := loaderRun sch W B 0 N (fun w => Sched.workerInit w W B (.updates N) t)
+    pure (Json.arr (outs.map (fun batch => Json.arr (batch.map (fun (o : CallOut) =>
+      Json.mkObj [("b", ofNat o.batchIdx), ("strength", ofRat o.ctxStrength),
+        ("applied", match o.applied with | some t' => tJson t' | none => Json.str "assert")])).toArray)).toArray)
   | "st.batchidx" => do
     pure (ofNat (batchIdx (← nat j "counter") (← nat j "B") (← nat j "W") (← nat j "rank")))
   | _ => throw s!"unknown op {op}"
